@@ -68,6 +68,11 @@ def prerequisite_collection(ctx, o, ps: PassShape):
                  f"{ps.rel} declared on ancestor summary tasks are not all inherited ({why}): a task first reached through a "
                  f"dependency link is scheduled without them and the memo then skips it")
         okf = False
+    pt['has_bound'] = any(isinstance(a, ast.Name) and a.id == ps.bound for a in pt['args'])
+    if not pt['has_bound']:
+        o.refute(ps.f, pt['stmt'], pt['stmt'].value, f"the bound handed to the task (`{ps.bound}`) is not part of `{pt['name']}`: the project "
+                                                      f"bound / the bound of the parent is lost")
+        okf = False
     if okf:
         o.site(ps.f, pt['stmt'], f"{pt['name']} = {src(pt['stmt'].value)[:80]}; collection = own + all_parents' {ps.rel}")
     pt['sources'] = srcs
@@ -138,7 +143,7 @@ def leaf_bound(ctx, o, ps: PassShape, pt):
     found_search = False
     for st, tgt, val, reg in stores:
         cn = ps.cfg.node_of(st)
-        v = ps.ex.expand(val, cn)
+        v = ps.ex.expand(val, cn, stop={pt['name']} if pt else None)
         if isinstance(st, ast.AugAssign):
             # backward: end += 1 day after the search
             k = facts.day_delta(st.value)
@@ -184,12 +189,16 @@ def check_bound_term(ctx, o, ps, pt, st, term, fwd, intermediate=False):
         need.update({'clock': False, 'min_start': False})
     pe_args = []
     if pt is not None:
-        pe_x = ps.ex.expand(pt['stmt'].value, ps.cfg.node_of(pt['stmt']))
+        pe_x = ps.ex.expand(pt.get('value', pt['stmt'].value), ps.cfg.node_of(pt['stmt']))
         pe_args = facts.flatten_lattice(pe_x, lat) or []
     comp_x = [a for a in pe_args if facts.comp_parts(a)]
     for a in args:
         parts = facts.comp_parts(a)
-        if parts and pt is not None and (same(a, pt['comp']) or any(same(a, c) for c in comp_x)):
+        if pt is not None and isinstance(a, ast.Name) and a.id == pt['name'] and _same_pe(ps, pt, st):
+            need['prerequisites'] = True
+            if pt.get('has_bound'):
+                need['project bound'] = True
+        elif parts and pt is not None and (same(a, pt['comp']) or any(same(a, c) for c in comp_x)):
             need['prerequisites'] = True
         elif isinstance(a, ast.Name) and a.id == ps.bound:
             need['project bound'] = True
@@ -202,6 +211,12 @@ def check_bound_term(ctx, o, ps, pt, st, term, fwd, intermediate=False):
         o.refute(ps.f, st, term, f"the {'lower' if fwd else 'upper'} bound of the leaf `{src(term)[:100]}` lacks: " + ', '.join(missing))
     else:
         o.site(ps.f, st, f"{lat}({', '.join(src(a)[:40] for a in args)})")
+
+
+def _same_pe(ps, pt, stmt) -> bool:
+    """the name of the prerequisite term read at stmt still holds the value computed by pt['stmt']"""
+    d = ps.fl.unique_def(pt['name'], ps.cfg.node_of(stmt) or ps.cfg.node_containing(stmt))
+    return d is not None and d.stmt is pt['stmt']
 
 
 def handdown(ctx, o, ps: PassShape, pt):
@@ -224,9 +239,10 @@ def handdown(ctx, o, ps: PassShape, pt):
         if len(c.args) < 2:
             o.undecided(ps.f, c, c, "unexpected argument list")
             continue
-        b = ps.ex.expand(c.args[1], ps.cfg.node_containing(c))
+        b = ps.ex.expand(c.args[1], ps.cfg.node_containing(c), stop={pt['name']} if pt else None)
         args = facts.flatten_lattice(b, ps.lat) or [b]
-        if any(isinstance(a, ast.Name) and a.id == ps.bound for a in args) or \
+        via_pe = pt is not None and pt.get('has_bound') and any(isinstance(a, ast.Name) and a.id == pt['name'] for a in args) and _same_pe(ps, pt, c)
+        if via_pe or any(isinstance(a, ast.Name) and a.id == ps.bound for a in args) or \
                 any(match(f"self.{ps.S['bound']}", a) for a in args):
             o.site(ps.f, c, f"children bound = {src(c.args[1])}")
         else:
@@ -301,8 +317,8 @@ def milestone_placement(ctx, o, ps: PassShape, pt):
             o.refute(ps.f, ps.f.node, f'milestone {attr}', f"milestone {attr} is not set")
             continue
         st, val = got[attr]
-        v = ps.ex.expand(val, ps.cfg.node_of(st))
-        if same(v, ps.ex.expand(ast.Name(id=pt['name'], ctx=ast.Load()), ps.cfg.node_of(st))) or same(v, pt['stmt'].value):
+        v = ps.ex.expand(val, ps.cfg.node_of(st), stop={pt['name']})
+        if (isinstance(v, ast.Name) and v.id == pt['name'] and _same_pe(ps, pt, st)) or same(v, pt.get('value', pt['stmt'].value)):
             o.site(ps.f, st, f"milestone {attr} = {pt['name']}")
         else:
             o.refute(ps.f, st, val, f"milestone {attr} is `{src(v)[:80]}`, not the {'latest end' if ps.S['dir'] == 1 else 'earliest start'} "
